@@ -3,6 +3,7 @@
 PROPS = {}
 
 PROPS["C36"] = {
+    "standin": ["standin_hash_index"],
     "verus": ["bloom"],
     "kani": [],
     "level": "proof",
@@ -45,6 +46,7 @@ PROPS["C28"] = {
 }
 
 PROPS["C32"] = {
+    "standin": ["standin_delete"],
     "verus": ["insert_dedup"],
     "kani": [],
     "level": "proof",
@@ -66,6 +68,7 @@ PROPS["C32"] = {
 }
 
 PROPS["C11"] = {
+    "standin": ["standin_histories_clean", "standin_histories_dirty"],
     "verus": ["consolidate"],
     "kani": [],
     "level": "proof",
@@ -105,6 +108,7 @@ PROPS["C31"] = {
 }
 
 PROPS["C35"] = {
+    "standin": ["standin_pagination"],
     "verus": [],
     "kani": ["wire"],
     "level": "proof",
@@ -158,6 +162,7 @@ PROPS["C12"] = {
 }
 
 PROPS["C03"] = {
+    "standin": ["standin_workers"],
     "verus": ["codegen_guard"],
     "kani": ["codegen_guard"],
     "level": "proof",
@@ -199,6 +204,7 @@ PROPS["C05"] = {
 }
 
 PROPS["C33"] = {
+    "standin": ["standin_validator"],
     "verus": ["matches"],
     "kani": ["validator"],
     "level": "proof",
